@@ -354,10 +354,11 @@ func visitInstr(fr *frame, instr ssa.Instruction) continuation {
 		*addr = zero(typeparams.MustDeref(instr.Type()))
 
 	case *ssa.MakeSlice:
-		n := fr.makeLen(fr.get(instr.Len))
+		esz := fr.i.sizes.Sizeof(instr.Type().Underlying().(*types.Slice).Elem())
+		n := fr.makeLenSized(fr.get(instr.Len), esz)
 		cp := n
 		if instr.Cap != instr.Len {
-			cp = fr.makeLen(fr.get(instr.Cap))
+			cp = fr.makeLenSized(fr.get(instr.Cap), esz)
 			if n > cp {
 				panic("runtime error: makeslice: cap out of range")
 			}
@@ -543,9 +544,19 @@ func callSSA(i *interpreter, caller *frame, callpos token.Pos, fn *ssa.Function,
 			}
 			return ext(fr, args)
 		}
-		if fn.Blocks == nil {
-			i.ps.abort("abort", "no code for function: "+fn.String())
-		}
+	}
+	return execSSA(i, fr, fn, args, env)
+}
+
+// execBody runs the real SSA body of fr.fn (used by externals that only
+// intercept symbolic arguments and otherwise defer to the real code).
+func execBody(fr *frame, args []value) value {
+	return execSSA(fr.i, fr, fr.fn, args, nil)
+}
+
+func execSSA(i *interpreter, fr *frame, fn *ssa.Function, args []value, env []value) value {
+	if fn.Blocks == nil {
+		i.ps.abort("abort", "no code for function: "+fn.String())
 	}
 	if i.ps.res != nil && fn.Pkg != nil && i.w.prog.isTarget(fn.Pkg) {
 		i.ps.res.Funcs[fn.String()] = true
